@@ -63,6 +63,15 @@ impl C01 {
         let res = run_once(&c.u, &c.problem, &cfg);
         rep.labels.push(res.outcome.kind());
         label_search(&res.labels, &mut rep.labels);
+        if res.polls > 300 {
+            rep.labels.push("polls>300");
+        }
+        if res.polls > 1000 {
+            rep.labels.push("polls>1000");
+        }
+        if res.polls > 4000 {
+            rep.labels.push("polls>4000");
+        }
         if matches!(cfg.runtime, Runtime::Async { .. }) {
             rep.labels.push("async");
         }
